@@ -4,7 +4,12 @@ use serde_json::{json, Value};
 use std::path::PathBuf;
 use std::time::Instant;
 
-pub const VERIF: &str = "/verif";
+/// root of the framework tree: the directory of the `bbv` script that started this process (BBV_ROOT), /verif by
+/// default. Work directories, build output, replays and evidence live below it, so a copy of the tree (a
+/// snapshot used for a background run) never shares files with the original.
+pub fn verif() -> String {
+    std::env::var("BBV_ROOT").unwrap_or_else(|_| "/verif".to_string())
+}
 
 #[derive(Clone, Copy, Debug, PartialEq, Eq)]
 pub enum Tier {
@@ -39,7 +44,7 @@ pub struct RunCtx {
 
 impl RunCtx {
     pub fn new(prop: &str, tier: Tier, seed: u64) -> RunCtx {
-        let work = PathBuf::from(format!("{}/{}", std::env::var("BBV_WORK_DIR").unwrap_or_else(|_| format!("{}/work", VERIF)), prop));
+        let work = PathBuf::from(format!("{}/{}", std::env::var("BBV_WORK_DIR").unwrap_or_else(|_| format!("{}/work", verif())), prop));
         std::fs::create_dir_all(&work).ok();
         RunCtx { prop: prop.to_string(), tier, seed, work, t0: Instant::now(), write_evidence: std::env::var("BBV_NO_EVIDENCE").is_err() }
     }
@@ -81,7 +86,7 @@ pub struct Known {
 
 pub fn load_known() -> Vec<Known> {
     let mut out = Vec::new();
-    let text = std::fs::read_to_string(format!("{}/KNOWN_FINDINGS.txt", VERIF)).unwrap_or_default();
+    let text = std::fs::read_to_string(format!("{}/KNOWN_FINDINGS.txt", verif())).unwrap_or_default();
     for line in text.lines() {
         let line = line.trim();
         let rest = match line.strip_prefix("known:") {
@@ -146,8 +151,8 @@ pub fn finish(rc: &RunCtx, out: Outcome) -> ! {
         "violations": unknown.len(),
     });
     if rc.write_evidence {
-        std::fs::create_dir_all(format!("{}/evidence", VERIF)).ok();
-        let path = format!("{}/evidence/{}.json", VERIF, rc.prop);
+        std::fs::create_dir_all(format!("{}/evidence", verif())).ok();
+        let path = format!("{}/evidence/{}.json", verif(), rc.prop);
         std::fs::write(&path, serde_json::to_string_pretty(&ev).unwrap()).unwrap_or_else(|e| inconclusive(&format!("cannot write evidence: {}", e)));
     }
     for (k, n) in &known_hits {
@@ -165,7 +170,7 @@ pub fn finish(rc: &RunCtx, out: Outcome) -> ! {
         );
         std::process::exit(0);
     }
-    let replay_dir = std::env::var("BBV_REPLAY_DIR").unwrap_or_else(|_| format!("{}/replays", VERIF));
+    let replay_dir = std::env::var("BBV_REPLAY_DIR").unwrap_or_else(|_| format!("{}/replays", verif()));
     std::fs::create_dir_all(&replay_dir).ok();
     let mut seen = std::collections::BTreeSet::new();
     for v in &unknown {
